@@ -37,6 +37,8 @@ def plan(tier, seed):
         jobs += stats_select.jobs("C04", tier)
     except ImportError:
         pass
+    jobs.append(ch("C04", "vf/pyshim/h_rowgroup.py", "h_make_row_group", t,
+                   ["writer.make_row_group (chunk statistics handed on)"]))
     extra = dict(
         explanation="Statistics section of the real write_column under CrossHair (z3): for a categorical column with "
                     "categories in arbitrary (symbolic) order of which a symbolic subset occurs, min/max must be the "
